@@ -177,6 +177,9 @@ func (c *c06Case) newNode(i int) *c06Node {
 	cfg.RetransmitMult = c.o.mult
 	cfg.LeftIngestersTimeout = time.Duration(c.o.lit) * time.Second
 	cfg.ObsoleteEntriesTimeout = time.Hour
+	if c.o.keyDelete {
+		cfg.ObsoleteEntriesTimeout = time.Nanosecond // every key marked deleted is obsolete at the next cleanup
+	}
 	cfg.MessageHistoryBufferBytes = 0
 	if c.o.ni {
 		cfg.NotifyInterval = time.Hour
@@ -877,6 +880,33 @@ func (c *c06Case) doSettle(kind string) {
 	c.emit(kind, strings.Join(parts, "!"))
 }
 
+// doCleanup runs the obsolete-entries ticker body of node n (cleanupObsoleteEntries)
+func (c *c06Case) doCleanup(n int) {
+	ev := "co!" + itoa(n)
+	p := guarded(func() { c.nodes[n].kv.VerifCleanupObsolete() })
+	if p != "" {
+		c.emit(ev, "PANIC:"+p)
+		return
+	}
+	// a key that left the store starts again at version 1 when it comes back: the watchers' "last version in
+	// sync" must not survive the removal (waitWatchers would otherwise not wait for the callback)
+	have := map[string]bool{}
+	for _, e := range c.nodes[n].kv.VerifStoreSnapshot() {
+		have[e.Key] = true
+	}
+	for _, w := range c.ws {
+		if w.node != n || w.gen != c.nodes[n].gen {
+			continue
+		}
+		for k := range w.regVer {
+			if !have[k] {
+				delete(w.regVer, k)
+			}
+		}
+	}
+	c.emit(ev, itoa(int(c.now()))+"!"+c.snap(n))
+}
+
 func (c *c06Case) doDelete(n int, key string) {
 	ev := "del!" + itoa(n) + "!" + key
 	p := guarded(func() { _ = c.client(n, key).Delete(context.Background(), key) })
@@ -886,6 +916,65 @@ func (c *c06Case) doDelete(n int, key string) {
 	}
 	c.waitWatchers(n, false)
 	c.emit(ev, itoa(int(c.now()))+"!"+c.snap(n))
+}
+
+// doInject hands node n a gossip message built by the harness (not by a correct replica): the value may be
+// ill-formed (unsorted / duplicated tokens, tokens on a LEFT entry, the same token claimed twice). A node that
+// has no value for the key stores it verbatim (computeNewValue); the history is outside the quantifier.
+func (c *c06Case) doInject(n int, key string, d *ring.Desc) {
+	ev := "inj!" + itoa(n) + "!" + key
+	enc, err := ring.GetCodec().Encode(d)
+	if err != nil {
+		panic(err)
+	}
+	kvp := memberlist.KeyValuePair{Key: key, Value: enc, Codec: ring.GetCodec().CodecID()}
+	data, _ := kvp.Marshal()
+	cl, ct := c.decodeMsgK(data, false, false)
+	if cl != "ok" {
+		panic("inject: " + cl)
+	}
+	p := guarded(func() {
+		c.nodes[n].kv.NotifyMsg(data)
+		c.nodes[n].kv.VerifQuiesce()
+	})
+	if p != "" {
+		c.emit(ev, "PANIC:"+p)
+		return
+	}
+	c.waitWatchers(n, false)
+	c.emit(ev, itoa(int(c.now()))+"!"+ct+"!"+c.snap(n))
+}
+
+// scriptFirstValue: an ill-formed first message reaches nodes that have no value for the key (stored verbatim,
+// re-gossiped verbatim) and a node that has one (merged: normalised, conflicts resolved).
+func (c *c06Case) scriptFirstValue() {
+	r := c.r
+	key := pick(r, []string{"r1", "r2"})
+	d := ring.NewDesc()
+	now := c.now() + c.base
+	for i, id := range c06RingIDs[:2+r.intn(3)] {
+		inst := ring.InstanceDesc{Id: id, Addr: "addr-" + id, Zone: "z" + itoa(i%2), Timestamp: now - int64(1+r.intn(5)), State: pick(r, allStates)}
+		nt := 1 + r.intn(4)
+		for j := 0; j < nt; j++ {
+			inst.Tokens = append(inst.Tokens, uint32(1+r.intn(4))) // unsorted, duplicated, clashing; also on LEFT entries
+		}
+		d.Ingesters[id] = inst
+	}
+	c.doInject(0, key, d)
+	c.doGossip(0)
+	for m := range c.pool {
+		c.doDeliver(1, m) // first value at node 1 as well
+	}
+	if c.o.nNodes > 2 {
+		dl, _ := c.nextDelta(key + c06RingIDs[3])
+		c.doCAS(2, key, "hb:"+c06RingIDs[3]+":"+itoa(dl)+":A:5")
+		for m := range c.pool {
+			c.doDeliver(2, m) // merged into an existing value: normalised and resolved
+		}
+		c.doGossip(2)
+	}
+	c.doPushPull(1, 0, "", 0)
+	c.doSettle("st")
 }
 
 // scriptPrefixDrop: node A removes an entry whose name is a proper prefix of another entry's name and
@@ -996,6 +1085,11 @@ func (c *c06Case) scriptDelPush() {
 				c.doPushPull(a, i, "", 0)
 			}
 		}
+	}
+	if r.chance(1, 2) {
+		// the obsolete-entries ticker: the deleted key (and every tombstone inside its value) is forgotten
+		c.doCleanup(a)
+		c.doCleanup(b)
 	}
 	c.doSettle("st")
 }
@@ -1289,6 +1383,9 @@ func (c *c06Case) run() (cfg, events, obs string) {
 	if o.script == "prefixdrop" {
 		c.scriptPrefixDrop()
 	}
+	if o.script == "firstvalue" {
+		c.scriptFirstValue()
+	}
 	for step := 0; step < o.nEvents; step++ {
 		n := r.intn(o.nNodes)
 		if step < 2 && o.script == "" {
@@ -1297,6 +1394,10 @@ func (c *c06Case) run() (cfg, events, obs string) {
 		}
 		if o.keyDelete && r.chance(1, 10) {
 			c.doDelete(n, pick(r, keys))
+			continue
+		}
+		if o.keyDelete && r.chance(1, 12) {
+			c.doCleanup(n)
 			continue
 		}
 		switch x := r.intn(100); {
@@ -1401,7 +1502,7 @@ func (c *c06Case) run() (cfg, events, obs string) {
 		}
 		c.doSettle("fin")
 	}
-	cfg = "n=" + itoa(o.nNodes) + ",mult=" + itoa(o.mult) + ",lit=" + itoa(o.lit) + ",ni=" + c06B(o.ni) + ",clash=" + c06B(o.clash) + ",gc=" + c06B(o.gcOld) + ",skew=" + c06B(o.skew) + ",del=" + c06B(o.keyDelete)
+	cfg = "n=" + itoa(o.nNodes) + ",mult=" + itoa(o.mult) + ",lit=" + itoa(o.lit) + ",ni=" + c06B(o.ni) + ",clash=" + c06B(o.clash) + ",gc=" + c06B(o.gcOld) + ",skew=" + c06B(o.skew) + ",del=" + c06B(o.keyDelete) + ",obs=" + map[bool]string{true: "-1", false: "3600000"}[o.keyDelete]
 	return cfg, strings.Join(c.events, " "), strings.Join(c.obs, " ")
 }
 
@@ -1497,6 +1598,10 @@ func runC06(e *env) {
 	})
 	c06RunMany(e, "C06.run", 150*e.scale, 3, func(i int, r *rng) c06Opts {
 		return c06Opts{nNodes: 2 + r.intn(2), mult: 2, lit: 3600, gcOld: true, nEvents: 10 + r.intn(20), removal: 20}
+	})
+	// an ill-formed FIRST message (C05: computeNewValue stores the first value verbatim); outside the quantifier
+	c06RunMany(e, "C06.run", 80*e.scale, 10, func(i int, r *rng) c06Opts {
+		return c06Opts{nNodes: 2 + r.intn(3), mult: 1 + r.intn(3), lit: pick(r, []int{0, 300}), nEvents: r.intn(6), removal: 20, script: "firstvalue"}
 	})
 	// a removal immediately followed by a change of an entry whose name has the removed name as a prefix
 	c06RunMany(e, "C06.run", 100*e.scale, 9, func(i int, r *rng) c06Opts {
